@@ -6,6 +6,7 @@
 import OpwVerif.Generated.SrcWrap
 namespace Opw
 variable {R : Type} [OpwNum R]
+set_option linter.unusedSectionVars false
 
 /-! ### Tool -/
 theorem toolInverse_eq (i : Kin R) (t pose : Iso R) : SrcWrap.toolInverse i t pose = (Kin.tool i t).inverse pose := rfl
@@ -55,5 +56,34 @@ theorem paraForward_eq (i : Kin R) (s : R) (d c : Nat) (q : J6 R) :
     SrcWrap.paraForward i s d c q = (Kin.para i s d c).forward q := rfl
 theorem paraLinks_eq (i : Kin R) (s : R) (d c : Nat) (q : J6 R) :
     SrcWrap.paraLinks i s d c q = (Kin.para i s d c).links q := rfl
+
+/-! ### limits and singularity reports of the four wrappers: those of the robot they wrap -/
+theorem toolSingularity_eq (i : Kin R) (t : Iso R) (q : J6 R) : SrcWrap.toolSingularity i t q = (Kin.tool i t).singularity q := rfl
+theorem toolConstraints_eq (i : Kin R) (t : Iso R) : SrcWrap.toolConstraints i t = (Kin.tool i t).constraints := rfl
+theorem baseSingularity_eq (i : Kin R) (b : Iso R) (q : J6 R) : SrcWrap.baseSingularity i b q = (Kin.base i b).singularity q := rfl
+theorem baseConstraints_eq (i : Kin R) (b : Iso R) : SrcWrap.baseConstraints i b = (Kin.base i b).constraints := rfl
+theorem frameSingularity_eq (i : Kin R) (f : Iso R) (q : J6 R) : SrcWrap.frameSingularity i f q = (Kin.frame i f).singularity q := rfl
+theorem frameConstraints_eq (i : Kin R) (f : Iso R) : SrcWrap.frameConstraints i f = (Kin.frame i f).constraints := rfl
+theorem paraSingularity_eq (i : Kin R) (s : R) (d c : Nat) (q : J6 R) :
+    SrcWrap.paraSingularity i s d c q = (Kin.para i s d c).singularity q := rfl
+theorem paraConstraints_eq (i : Kin R) (s : R) (d c : Nat) : SrcWrap.paraConstraints i s d c = (Kin.para i s d c).constraints := rfl
+
+/-! ### KinematicsWithShape: the collision filter keeps order; everything else is the wrapped stack -/
+theorem kwsRemoveCollisions_eq (col : J6 R → Bool) (l : List (J6 R)) : SrcWrap.kwsRemoveCollisions col l = removeCollisions col l := rfl
+theorem kwsInverse_eq (i : Kin R) (col : J6 R → Bool) (pose : Iso R) : SrcWrap.kwsInverse i col pose = (Kin.shape i col).inverse pose := rfl
+theorem kwsInverseContinuing_eq (i : Kin R) (col : J6 R → Bool) (pose : Iso R) (prev : J6 R) :
+    SrcWrap.kwsInverseContinuing i col pose prev = (Kin.shape i col).inverseContinuing pose prev := rfl
+theorem kwsInverse5dof_eq (i : Kin R) (col : J6 R → Bool) (pose : Iso R) (j6 : R) :
+    SrcWrap.kwsInverse5dof i col pose j6 = (Kin.shape i col).inverse5dof pose j6 := rfl
+theorem kwsInverseContinuing5dof_eq (i : Kin R) (col : J6 R → Bool) (pose : Iso R) (prev : J6 R) :
+    SrcWrap.kwsInverseContinuing5dof i col pose prev = (Kin.shape i col).inverseContinuing5dof pose prev := rfl
+theorem kwsForward_eq (i : Kin R) (col : J6 R → Bool) (q : J6 R) : SrcWrap.kwsForward i col q = (Kin.shape i col).forward q := rfl
+theorem kwsLinks_eq (i : Kin R) (col : J6 R → Bool) (q : J6 R) : SrcWrap.kwsLinks i col q = (Kin.shape i col).links q := rfl
+theorem kwsSingularity_eq (i : Kin R) (col : J6 R → Bool) (q : J6 R) : SrcWrap.kwsSingularity i col q = (Kin.shape i col).singularity q := rfl
+theorem kwsConstraints_eq (i : Kin R) (col : J6 R → Bool) : SrcWrap.kwsConstraints i col = (Kin.shape i col).constraints := rfl
+/-- the facade methods hand the question to the body unchanged (no gating, no re-ordering of arguments) -/
+theorem kwsFacade_eq {α α1 α2 β : Type} (f1 : α → β) (f2 : α → α1 → β) (f3 : α → α1 → α2 → β) (a : α) (b : α1) (c : α2) :
+    SrcWrap.kwsCollides f1 a = f1 a ∧ SrcWrap.kwsCollisionDetails f1 a = f1 a ∧ SrcWrap.kwsNear f2 a b = f2 a b ∧
+    SrcWrap.kwsNonCollidingOffsets f3 a b c = f3 a b c := ⟨rfl, rfl, rfl, rfl⟩
 
 end Opw
